@@ -16,6 +16,9 @@ def h_dtype(ctx, fitted_with_nan, via):
     from AutoCarver.discretizers import Discretizer, GroupedList
     from AutoCarver.discretizers.utils.base_discretizers import BaseDiscretizer
 
+    # the user's name for missing values: the default, or one longer than numpy's fixed-width rendering of a float (32 chars)
+    nan_name = [NAN, "MISSING_VALUE_WITH_A_VERY_LONG_NAME_OVER_32_CHARS"][ctx.choose("str_nan", 2)]
+
     # ---- a fitted object: boundaries 2, 5, inf (+ NaN merged into the first group when fitted_with_nan)
     # magnitude "big": integer boundaries and values beyond 2**53, where float64 cannot tell neighbours apart
     big = bool(ctx.choose("magnitude", 2))
@@ -26,9 +29,15 @@ def h_dtype(ctx, fitted_with_nan, via):
     if via == "base":
         b1, b2 = (OFF + 2, OFF + 5) if big else (2.0, 5.0)
         content = {b1: [b1], b2: [b2], float("inf"): [float("inf")]}
+        odt = "float"
         if fitted_with_nan:
-            content = {b1: [NAN, b1], b2: [b2], float("inf"): [float("inf")]}
-        obj = BaseDiscretizer(["f"], values_orders={"f": GroupedList(content)}, input_dtypes="float", output_dtype="float", str_nan=NAN, dropna=True, copy=True, verbose=False)
+            if ctx.choose("nan_alone", 2):
+                # missing values as their own modality, labelled with the user's name for them
+                content = {b1: [b1], b2: [b2], float("inf"): [float("inf")], nan_name: [nan_name]}
+                odt = "str"
+            else:
+                content = {b1: [nan_name, b1], b2: [b2], float("inf"): [float("inf")]}
+        obj = BaseDiscretizer(["f"], values_orders={"f": GroupedList(content)}, input_dtypes="float", output_dtype=odt, str_nan=nan_name, dropna=True, copy=True, verbose=False)
         obj.fit()
     else:
         base = [1, 2, 3, 4, 5, 6, 7, 8, 1, 2, 3, 4, 5, 6, 7, 8, 2, 5, 7, 3]
@@ -36,7 +45,7 @@ def h_dtype(ctx, fitted_with_nan, via):
         if fitted_with_nan:
             col.iloc[[0, 9, 15]] = np.nan
         y = pd.Series([0, 0, 0, 1, 1, 1, 1, 1, 0, 0, 1, 0, 1, 1, 0, 1, 0, 1, 1, 0])
-        obj = BinaryCarver(min_freq=0.2, sort_by="cramerv", quantitative_features=["f"], max_n_mod=3, copy=True, dropna=True)
+        obj = BinaryCarver(min_freq=0.2, sort_by="cramerv", quantitative_features=["f"], max_n_mod=3, copy=True, dropna=True, str_nan=nan_name, output_dtype=["float", "str"][ctx.choose("output_dtype", 2)])
         obj.fit(pd.DataFrame({"f": col}), y)
         if "f" not in obj.features:
             from symx import Infeasible
@@ -89,7 +98,7 @@ def h_dtype(ctx, fitted_with_nan, via):
     for v, o in zip(data, col_out):
         ctx.require(o in fitted_labels, "C05.raw-value-leak", f"{dt} column: value {v!r} -> {o!r}, not a fitted label {sorted(fitted_labels)}", dict(dtype=dt))
     # C04: every row gets the label of the first fitted group whose upper bound is >= its value (exact comparison)
-    leaders = [v for v in list(obj.values_orders["f"]) if not (isinstance(v, str) and v == NAN)]
+    leaders = [v for v in list(obj.values_orders["f"]) if not (isinstance(v, str) and v == nan_name)]
     for v, o in zip(data, col_out):
         if v is None or v is pd.NA or (isinstance(v, float) and v != v):
             continue
@@ -109,6 +118,6 @@ def obligation(tier, name):
     jobs = [dict(fitted_with_nan=w, via=v) for w in (False, True) for v in ("base", "carver")]
     return Obligation(
         name=name, harness=h_dtype, jobs=jobs, encodes=["BaseDiscretizer.transform/_prepare_data/_transform_quantitative", "transform_quantitative_feature"],
-        bounds="fitted BaseDiscretizer / BinaryCarver (with and without NaN at fit); new 5-row frame whose column dtype is solver-chosen in {float64, float32, int64, uint64, object, Int64, UInt64, Float64} with an optional missing marker (NaN, None, pd.NA) at a solver-chosen position; magnitudes ~1 and 2**60 (integer dtypes)",
+        bounds="fitted BaseDiscretizer / BinaryCarver (with and without NaN at fit); new 5-row frame whose column dtype is solver-chosen in {float64, float32, int64, uint64, object, Int64, UInt64, Float64} with an optional missing marker (NaN, None, pd.NA) at a solver-chosen position; magnitudes ~1 and 2**60 (integer dtypes); str_nan default or a 49-character name; carver output_dtype float/str",
         outside="other extension dtypes (decimal, string, categorical)", twin_every=2,
     )
